@@ -432,3 +432,26 @@ contract(
     native=False,
     budget=5000,
 )
+
+
+# ====================================================================================================== dump_apbs
+# The APBS input is sized from, and names, the PQR path it is given (main_driver gives it args.output_pqr, see above), and
+# is written to the requested path.
+contract(
+    "pdb2pqr.io:dump_apbs", "C17",
+    params={"output_pqr": Str, "output_path": Str},
+    requires=[],
+    ensures=[
+        "len(calls_of('Psize')) == 1 and len(calls_of('Input')) == 1",
+        "forall(calls_of('parse_input'), lambda c: c.args['filename'] is output_pqr) and len(calls_of('run_psize')) == 1",
+        "calls_of('run_psize')[0].args['filename'] is output_pqr and calls_of('run_psize')[0].args['self'] is calls_of('Psize')[0].ret",
+        "calls_of('Input')[0].args['pqrpath'] is output_pqr and calls_of('Input')[0].args['size'] is calls_of('Psize')[0].ret",
+        "before_all('run_psize', ['Input'])",
+        "len(calls_of('print_input_files')) == 1 and calls_of('print_input_files')[0].args['output_path'] is output_path",
+        "calls_of('print_input_files')[0].args['self'] is calls_of('Input')[0].ret",
+    ],
+    trace={"pdb2pqr.psize:Psize": Obj("pdb2pqr.psize:Psize"), "pdb2pqr.psize:Psize.parse_input": None,
+           "pdb2pqr.psize:Psize.run_psize": None, "pdb2pqr.inputgen:Input": Obj("pdb2pqr.inputgen:Input"),
+           "pdb2pqr.inputgen:Input.print_input_files": None},
+    name="dump_apbs", native=False,
+)
